@@ -208,12 +208,12 @@ func c18(e *Env) {
 	}
 	var sends []*core.Node
 	for _, n := range g.Nodes {
-		if _, ok := isPortSend(n); ok && n.Ctx == g.Root && n.Kind != core.KAfter {
+		if _, ok := isPortSend(n); ok && n.Kind != core.KAfter {
 			sends = append(sends, n)
 		}
 	}
 	must := g.Forward(func(n *core.Node) core.Transfer {
-		if isSubStore(n) && n.Ctx == g.Root {
+		if isSubStore(n) {
 			return core.Transfer{Gen: 1}
 		}
 		return core.Transfer{}
@@ -223,7 +223,7 @@ func c18(e *Env) {
 		return
 	}
 	n := sends[0]
-	st := g.Select(func(m *core.Node) bool { return isSubStore(m) && m.Ctx == g.Root })
+	st := g.Select(func(m *core.Node) bool { return isSubStore(m) })
 	okV := false
 	for _, m := range st {
 		v := sy.InCtx(m.Ctx, m.Instr.(*ssa.Store).Val).String()
@@ -231,7 +231,7 @@ func c18(e *Env) {
 			okV = true
 		}
 	}
-	inLoop := core.InnermostLoop(n.Instr) != nil
+	inLoop := len(g.EnclLoops(n)) > 0
 	ob4.Check(must[n]&1 != 0 && okV && !inLoop, g.Where(n), "SubStream = p.In() ≺ single Send(carrier)", "the carrier can be sent before its SubStream is set to the component's in-port (the consumer would drain an empty default sub-stream), or is sent in a loop")
 	_ = constant.MakeBool
 }
